@@ -7,7 +7,13 @@ func checks() []check {
 	_ = m
 	return []check{
 		{ID: "C01", Level: "model_checking", Parts: []part{
-			{Name: "pool-interleavings", Pkg: "pkg/eni", Run: "^TestVerifC01$", Sets: []string{"weave"}, Weave: []string{"pkg/eni"}, ShardsQ: 8, ShardsT: 16},
+			{Name: "pool-interleavings", Pkg: "pkg/eni", Run: "^TestVerifC01$", Sets: []string{"weave"}, Weave: []string{"pkg/eni"}, ShardsQ: 16, ShardsT: 16},
+		}},
+		{ID: "C06", Level: "model_checking", Parts: []part{
+			{Name: "pool-quota-monitor", Pkg: "pkg/eni", Run: "^TestVerifC06$", Sets: []string{"weave"}, Weave: []string{"pkg/eni"}, ShardsQ: 16, ShardsT: 16},
+		}},
+		{ID: "C07", Level: "model_checking", Parts: []part{
+			{Name: "pool-faults", Pkg: "pkg/eni", Run: "^TestVerifC07$", Sets: []string{"weave"}, Weave: []string{"pkg/eni"}, ShardsQ: 10, ShardsT: 15},
 		}},
 		{ID: "C14", Level: "model_checking", Parts: []part{
 			{Name: "u32v4", Pkg: "pkg/tc", Run: "^TestVerifC14U32v4$"},
